@@ -271,11 +271,11 @@ Definition upd_client (i : Z) (c : client) (s : state) : state :=
 Definition send_result (n : Z) (o : sendout) : Z :=
   match o with SWould => -1 | SErr => -2 | SSent k => Z.max 0 (Z.min k n) end.
 
-Definition pop_send (n : Z) (s : state) : sendout * state :=
-  match sendq s with [] => (SSent n, s) | o :: r => (o, set_sendq r s) end.
-
-Definition pop_recv (s : state) : recvout * state :=
-  match recvq s with [] => (RWould, s) | o :: r => (o, set_recvq r s) end.
+(* the scripted outcome of the next ::send / ::recv (defaults: everything is sent / would block) *)
+Definition next_send (n : Z) (s : state) : sendout := match sendq s with [] => SSent n | o :: _ => o end.
+Definition drop_send (s : state) : state := set_sendq (tl (sendq s)) s.
+Definition next_recv (s : state) : recvout := match recvq s with [] => RWould | o :: _ => o end.
+Definition drop_recv (s : state) : state := set_recvq (tl (recvq s)) s.
 
 Definition recv_result (o : recvout) : Z :=
   match o with RWould => -1 | RErr => -2 | REof => 0 | RGot k => Z.max 0 k end.
@@ -342,8 +342,8 @@ Definition exec_action (a : action) (s : state) : state :=
       | Some c =>
           if n <? 1 then log EvSkip s else
           if c_back c =? 0 then
-            let '(o, s) := pop_send n s in
-            let r := send_result n o in
+            let r := send_result n (next_send n s) in
+            let s := drop_send s in
             let s := log (EvSend i n r false) s in
             if failed_io r then log (EvWrote i false 0) (closing_append i s)
             else
@@ -361,8 +361,8 @@ Definition exec_action (a : action) (s : state) : state :=
   | ARead i =>
       match alookup Z.eqb i (clients s) with
       | Some c =>
-          let '(o, s) := pop_recv s in
-          let r := recv_result o in
+          let r := recv_result (next_recv s) in
+          let s := drop_recv s in
           let s := log (EvRecv i r) s in
           if failed_io r then log (EvRead i false) (closing_append i s)
           else log (EvRead i (0 <? r)) s
@@ -465,8 +465,8 @@ Definition dispatch_write (i : Z) (also_read : bool) (s : state) : state :=
   | None => s
   | Some c =>
       if 0 <? c_back c then
-        let '(o, s) := pop_send (c_back c) s in
-        let r := send_result (c_back c) o in
+        let r := send_result (c_back c) (next_send (c_back c) s) in
+        let s := drop_send s in
         let s := log (EvSend i (c_back c) r true) s in
         if failed_io r then
           let s := upd_client i (mkCl (c_cb c) 0 (c_susp c)) s in
@@ -484,10 +484,10 @@ Definition dispatch_write (i : Z) (also_read : bool) (s : state) : state :=
         callback (Cl i) KWrite s
   end.
 
-Definition pop_accept (s : state) : bool * state :=
-  match acceptq s with [] => (true, s) | o :: r => (o, set_acceptq r s) end.
-Definition pop_conn (s : state) : Z * state :=
-  match connq s with [] => (0, s) | o :: r => (o, set_connq r s) end.
+Definition next_accept (s : state) : bool := match acceptq s with [] => true | o :: _ => o end.
+Definition drop_accept (s : state) : state := set_acceptq (tl (acceptq s)) s.
+Definition next_conn (s : state) : Z := match connq s with [] => 0 | o :: _ => o end.
+Definition drop_conn (s : state) : state := set_connq (tl (connq s)) s.
 
 Definition dispatch (e : ent) (f : fl) (s : state) : state :=
   match e with
@@ -497,7 +497,8 @@ Definition dispatch (e : ent) (f : fl) (s : state) : state :=
       else s
   | Li i =>
       if fA f then
-        let '(ok, s) := pop_accept s in
+        let ok := next_accept s in
+        let s := drop_accept s in
         match (if ok then peek_new (Li i) KAccepted s else None) with
         | Some (n, acc) => introduce (Li i) KAccepted n acc (log (EvAccept i true) s)
         | None => log (EvAccept i false) s       (* accept fails (also when the test has no identity for the client) *)
@@ -506,7 +507,8 @@ Definition dispatch (e : ent) (f : fl) (s : state) : state :=
   | Es i =>
       if fC f then
         let s := poll_remove (Es i) s in
-        let '(err, s) := pop_conn s in
+        let err := next_conn s in
+        let s := drop_conn s in
         match (if err =? 0 then peek_new (Es i) KConnected s else None) with
         | Some (n, acc) => introduce (Es i) KConnected n acc (log (EvSoErr i 0) s)
         | None => callback (Es i) KAbolished (log (EvSoErr i (if err =? 0 then 111 else err)) s)
